@@ -10,7 +10,7 @@ local macro "radix_case" radix:num bits:num : tactic => `(tactic| (
   simp only [JsOp.radixLiteral]
   rw [for_radixLoop $radix $bits (some none)]
   · simp only [powi_two, powi_two', to_f64_nat, mul_f64, gt_nat, to_u64_bool, Rs.bitor, or_sticky]
-    cases h : JsOp.radixLoop $radix $bits _ (0, 0, false) <;> simp [rs, h]
+    cases h : JsOp.radixLoop $radix $bits _ (0, 0, false) <;> simp [rs, h, or_sticky]
   · intro acc shift sticky c
     cases h : JsOp.toDigit $radix c with
     | none => simp [rs, h]
